@@ -316,6 +316,19 @@ func (g *j5Gen) apiService(name, pkg string, k *j5Known, listItem string, f *jFi
 		if m.HasRes {
 			m.Res = g.fields(k, rng.Intn(5), "")
 		}
+		if rng.Intn(4) == 0 {
+			// objects, oneofs and enums declared in place inside the request / response: nested messages of the
+			// service sub-package
+			inl := func(n string) *jT {
+				return &jT{Kind: kObject, Inline: &jDecl{Kind: kObject, Fields: []*jF{fld(n+"Text", tScalar(kString)), fld(n+"Mode", &jT{Kind: kEnum, Inline: &jDecl{Kind: kEnum, Options: []string{"ON", "OFF"}}})}}}
+			}
+			if m.HTTPMethod != "GET" {
+				m.Req = append(m.Req, fld("criteria", inl("criteria")))
+			}
+			if m.HasRes {
+				m.Res = append(m.Res, fld("outcome", inl("outcome")), fld("outcomes", tArr(inl("each"))))
+			}
+		}
 		if f != nil && rng.Intn(4) == 0 {
 			// a flattened object directly in the request and/or the response: its members and the schemas they refer to
 			// belong to the method like those of any other field
